@@ -1,10 +1,13 @@
 ---------------------------- MODULE ArchiveTrace -----------------------------
 (* Trace validation for C13.  One event per public call on a real archive        *)
 (* (CoverageArchive / MIOArchive / MIOPopulation): the call, the offered          *)
-(* solutions, and the archive projected before and after the call.  TLC evaluates *)
-(* the clauses of C13 (ArchiveOps) on these observed views.  `Follows` compares   *)
-(* the observed step with the design model; it is reported as drift, not as a     *)
-(* verdict.                                                                       *)
+(* solutions, the assignments archive[g] := s the archive made during the call,   *)
+(* and the archive projected after the call (the view before the call is the one  *)
+(* after the previous call; "observe" events record a view found changed between  *)
+(* two calls, "recheck" the view with all archived tests re-executed).  TLC        *)
+(* evaluates the clauses of C13 (ArchiveOps) on these observed views.  `Follows`  *)
+(* compares the observed step with the design model; it is reported as drift, not *)
+(* as a verdict.                                                                  *)
 EXTENDS ArchiveOps, TLC, TLCExt, Json, IOUtils
 
 Traces == ndJsonDeserialize(IOEnv.TRACE_FILE)
